@@ -71,6 +71,6 @@ static void run_case(const std::string& cid, Toks& t) {
 }
 
 int main(int argc, char** argv) {
-    setenv("PPN", "4", 1);
+    setenv("PPN", "4", 0);   // processes per node for the node-aware (tap) communicators; the harness sets it to a divisor of np
     return par_main(argc, argv, run_case);
 }
